@@ -2,8 +2,17 @@
    correspondence cases (tie H).  State index s = (c*nx + x)*ny + y,
    successor index j = x'*ny + y'. *)
 From Coq Require Import List Bool Arith.
+From Coq Require Export NArith.
 Import ListNotations.
 From Omega Require Import L4.Arena.
+
+(* compact literals: a list of [len] bools as the bits of an N (little endian);
+   elaborating long [true;false;...] literals is what dominates case files *)
+Fixpoint bitsN (len : nat) (n : N) : list bool :=
+  match len with
+  | 0 => []
+  | S k => N.odd n :: bitsN k (N.div2 n)
+  end.
 
 Section Tables.
 Variables nc nx ny : nat.
@@ -27,6 +36,12 @@ Definition nexts (s : V) : list V :=
 Definition to_table1 (u : bdd) : list bool := map u states.
 Definition to_table2 (u : bdd) : list (list bool) :=
   map (fun s => map u (nexts s)) states.
+
+Definition tt1 (u : bdd) : list bool := to_table1 u.
+Definition tt2 (l : list bdd) := map tt1 l.
+Definition tt3 (l : list (list bdd)) := map tt2 l.
+Definition tt4 (l : list (list (list bdd))) := map tt3 l.
+Definition tt5 (l : list (list (list (list bdd)))) := map tt4 l.
 
 Fixpoint eq1 (a b : list bool) : bool :=
   match a, b with
